@@ -4,4 +4,6 @@ Thorough == "VERIF_THOROUGH" \in DOMAIN IOEnv /\ IOEnv.VERIF_THOROUGH = "1"
 MCNames == IF Thorough THEN {"a", "empty", "unicode"} ELSE {"a", "empty"}
 MCPasswords == IF Thorough THEN {"a", "empty", "upperA"} ELSE {"a", "empty"}
 MCBlobSlots == IF Thorough THEN {1, 2} ELSE {1}
+\* thorough: one caller-supplied key next to 3 names x 3 passwords x 2 slots (2.2 M states, 3-4 min); quick: two of them
+MCGivenKeys == IF Thorough THEN {1} ELSE {0, 1}
 =============================================================================
